@@ -21,11 +21,10 @@ git stash pop -q
 echo "$n: $s1 $s2 $s3"
 cd /verif
 for p in $props; do
-    git -C /repo apply "$out/patch.diff" || { echo "patch does not apply to /repo"; exit 2; }
+    # the agent's worktree carries the change: build the simulator against it, /repo is untouched
     t0=$(date +%s)
-    SIM_NO_EVIDENCE=1 ./check "$p" quick > "$out/check_$p.log" 2>&1; rc=$?
+    SIM_REPO="$wt" SIM_NO_EVIDENCE=1 ./check "$p" quick > "$out/check_$p.log" 2>&1; rc=$?
     t1=$(date +%s)
-    git -C /repo checkout -- .
-    echo "$n: ./check $p quick -> rc=$rc ($((t1-t0))s) $(grep -m1 '^violation class' "$out/check_$p.log" | cut -c1-260)"
+    echo "$n: ./check $p quick (SIM_REPO=$wt) -> rc=$rc ($((t1-t0))s) $(grep -m1 '^violation class' "$out/check_$p.log" | cut -c1-260)"
 done
 rm -f /verif/replays/*.json
